@@ -1,8 +1,8 @@
 package main
 
 import (
-	"strings"
 	"go/types"
+	"strings"
 
 	"golang.org/x/tools/go/ssa"
 )
